@@ -92,6 +92,15 @@ def r_eq_form(ck: Checker) -> None:
     def hook(lp: ast.stmt, assign: dict) -> object:
         if not isinstance(lp, ast.For):
             raise Unsupported("while loop in _eq_fn", lp)
+        if len(lp.body) == 1 and isinstance(lp.body[0], ast.If) and not lp.body[0].orelse and lp.body[0].body and isinstance(lp.body[0].body[-1], ast.Break):
+            # search form: `if <origins differ>: <flag = ..>; break` with an else clause: interpreted through its summary
+            if not analyse_positions(lp.iter, lp.target, lp.body[0].test, lp, True):
+                loop_info["bad"] = True
+                return None
+            loop_info["seen"] = True
+            summary = ast.If(test=ast.Name(id="LOOP:all_positions_equal", ctx=ast.Load()), body=list(lp.orelse) or [ast.Pass()],
+                             orelse=list(lp.body[0].body[:-1]) or [ast.Pass()])
+            return [ast.fix_missing_locations(ast.copy_location(summary, lp))]
         if not (len(lp.body) == 1 and isinstance(lp.body[0], ast.If) and not lp.body[0].orelse and len(lp.body[0].body) == 1
                 and isinstance(lp.body[0].body[0], ast.Return)):
             raise Unsupported("body of the position loop is not `if <origins differ>: return False`", lp)
@@ -124,7 +133,7 @@ def r_eq_form(ck: Checker) -> None:
         alleq = assign["LOOP:all_positions_equal"]
         return (not alleq) if name == "any" else alleq
 
-    rows = bool_function(body, loop_hook=hook, call_hook=call_hook)
+    rows = bool_function(body, loop_hook=hook, call_hook=call_hook, resolve=True)
     if loop_info.get("bad"):
         return
     cid = "eq(other.content_id,self.content_id)"
